@@ -132,7 +132,7 @@ class MemoryStorage(AbstractStorage):
 
     def get_metadata(self, bucket_id: str):
         if bucket_id in self._metadata:
-            return self._metadata[bucket_id]
+            return copy.deepcopy(self._metadata[bucket_id])
         else:
             raise ValueError("Bucket did not exist, could not get metadata")
 
@@ -141,7 +141,8 @@ class MemoryStorage(AbstractStorage):
             self.replace(bucket, event.id, event)
         else:
             # We need to copy the event to avoid setting the ID on the passed event
-            event = copy.copy(event)
+            # (deep, so that later changes to the caller's nested data don't reach the stored event)
+            event = copy.deepcopy(event)
             if self.db[bucket]:
                 event.id = max(int(e.id or 0) for e in self.db[bucket]) + 1
             else:
@@ -177,7 +178,7 @@ class MemoryStorage(AbstractStorage):
             if event.id == event_id
         ):
             # We need to copy the event to avoid setting the ID on the passed event
-            event = copy.copy(event)
+            event = copy.deepcopy(event)
             event.id = event_id
             self.db[bucket_id][idx] = event
 
